@@ -78,6 +78,15 @@ def arm_context(fn, node):
     return ""
 
 
+def arm_chain(fn, node):
+    """patterns of all match arms containing the node, outermost first"""
+    path = GD.path_to(fn["body"], node)
+    if not path:
+        return []
+    from .core.norm import pat_repr
+    return [pat_repr(p["pat"]) for p in path if p.get("k") is None and "pat" in p and "body" in p]
+
+
 def discharge_all(ctx, rid, P, sites, graph, extra=None):
     """evaluate every site; returns counts"""
     norms = {}
